@@ -40,15 +40,19 @@ def main():
     env = dict(os.environ, PYTHONPATH=wt, PYTHONHASHSEED='0', PYTHONDONTWRITEBYTECODE='1')
     res = {'seed': sid}
     # (1) in the scratch worktree: changed -> demo fails, tests pass; original -> demo passes
-    rc, out = sh(['git', '-C', wt, 'diff', '--stat'])
-    if not out.strip():
-        rc, out = sh(['git', '-C', wt, 'apply', patch])
+    # the scratch worktree is reset and the patch applied / reversed explicitly (git stash is shared between
+    # worktrees of one repository, so it is not used)
+    sh(['git', '-C', wt, 'checkout', '--', '.'])
+    rc, out = sh(['git', '-C', wt, 'apply', patch])
+    if rc != 0:
+        print('patch does not apply to the scratch worktree:', out[-300:])
+        return 2
     rc_c, out_c = sh([PY, demo], cwd=outdir, env=env, timeout=900)
     rc_t, out_t = sh([PY, '-m', 'pytest', '-q', '-p', 'no:cacheprovider', '--timeout=900'], cwd=wt, timeout=1800)
     tests_tail = [l for l in out_t.strip().split('\n') if l.strip()][-1] if out_t.strip() else ''
-    sh(['git', '-C', wt, 'stash'])
+    sh(['git', '-C', wt, 'apply', '-R', patch])
     rc_o, out_o = sh([PY, demo], cwd=outdir, env=env, timeout=900)
-    sh(['git', '-C', wt, 'stash', 'pop'])
+    sh(['git', '-C', wt, 'apply', patch])
     res['confirmed'] = {'demo_changed_exit': rc_c, 'demo_original_exit': rc_o, 'tests_changed': tests_tail,
                         'demo_changed_tail': out_c.strip()[-300:], 'demo_original_tail': out_o.strip()[-100:]}
     ok = rc_c != 0 and rc_o == 0 and rc_t == 0 and ' passed' in tests_tail and 'failed' not in tests_tail
